@@ -4,8 +4,9 @@ from __future__ import annotations
 
 import ast
 
-from ..core import AnalysisError, Check, Scope, norm, strip_docstring, walk_no_nested
-from ..dispatch import classify_body, match_dispatch
+from ..core import expand_locals, single_defs, AnalysisError, Check, Scope, norm, strip_docstring, walk_no_nested
+from ..dispatch import operator_table, classify_body, match_dispatch
+from ..interp import Sym, SymInterp
 from ..variants import Variant
 
 MOD = "sbml/_export.py"
@@ -88,6 +89,14 @@ class C08(Check):
         for name, fn in mod.functions.items():
             if "." in name or not name.startswith("_convert"):
                 continue
+            if not any(isinstance(n, ast.Match) for n in walk_no_nested(fn)):
+                ot = operator_table(mod, fn)
+                if ot is not None and ot[0] and not isinstance(ot[2], ast.If):
+                    if ot[1] == "raise":
+                        self.holds("E1", MOD, name, "operator-table", ot[2], f"kinds {sorted(ot[0])} handled through a table; anything else raises")
+                    else:
+                        self.violated("E1", MOD, name, "operator-table", ot[2], f"operators missing from the table do not raise ({ot[1]}): a different formula is written",
+                                      witness="a rate law using `x % 2`, `x @ y` or `~x` is exported as some other operation")
             for n in walk_no_nested(fn):
                 if isinstance(n, ast.Match):
                     d = match_dispatch(n)
@@ -100,7 +109,8 @@ class C08(Check):
                                       witness="a rate law using `x % 2`, `x @ y` or `~x` is exported as some other operation")
         cmp_ = mod.func("_convert_compare")
         idx = [n for n in walk_no_nested(cmp_) if isinstance(n, ast.Subscript) and norm(n.value) in ("node.ops", "node.comparators") and isinstance(n.slice, ast.Constant)]
-        zips = [n for n in walk_no_nested(cmp_) if isinstance(n, ast.Call) and norm(n.func) == "zip" and "node.ops" in norm(n) and "node.comparators" in norm(n)]
+        cdefs = single_defs(cmp_)
+        zips = [n for n in walk_no_nested(cmp_) if isinstance(n, ast.Call) and norm(n.func) == "zip" and "node.ops" in norm(expand_locals(n, cdefs)) and "node.comparators" in norm(expand_locals(n, cdefs))]
         guard = [n for n in walk_no_nested(cmp_) if isinstance(n, ast.If) and "len(node.ops)" in norm(n.test) and classify_body(n.body) == "raise"]
         if (zips and not idx) or guard:
             self.holds("E1", MOD, cmp_.name, "compare-all-links", zips[0] if zips else guard[0], "every link of a comparison chain is exported (or chains are refused)")
@@ -187,10 +197,13 @@ class C08(Check):
                 continue
             if name in ("_create_sbml_units", "_create_sbml_compartments", "_create_sbml_document"):
                 continue
+            ldefs = single_defs(fn, anywhere=True)
             for c in walk_no_nested(fn):
                 if not (isinstance(c, ast.Call) and isinstance(c.func, ast.Attribute) and c.func.attr in ID_SINKS and c.args):
                     continue
                 a = c.args[0]
+                if isinstance(a, ast.Name) and a.id in ldefs:
+                    a = expand_locals(a, {k: v for k, v in ldefs.items() if isinstance(v, (ast.Name, ast.Call))}, depth=4)
                 cons = f"{norm(c.func)}({norm(a)[:48]})"
                 if isinstance(a, ast.Call) and norm(a.func) == conv:
                     kw = {k.arg: norm(k.value) for k in a.keywords}
@@ -220,35 +233,50 @@ class C08(Check):
                               witness="a variable named 'A.B' or 'x-1': its species id is escaped, the kinetic law refers to the unescaped name")
 
     def e4(self, mod) -> None:
+        """Coefficient export, from the path summaries of one stoichiometry entry (match or isinstance dispatch alike)."""
         fn = mod.func("_create_sbml_reactions")
-        m = [n for n in walk_no_nested(fn) if isinstance(n, ast.Match)]
-        if not m:
-            raise AnalysisError("_create_sbml_reactions: coefficient dispatch not found")
-        num = der = None
-        for c in m[0].cases:
-            t = norm(c.pattern)
-            if "float" in t or "int" in t:
-                num = c
-            if "Derived" in t:
-                der = c
-        if num is None or der is None:
+        loops = [l for l in ast.walk(fn) if isinstance(l, ast.For) and norm(l.iter).endswith(".stoichiometry.items()") and isinstance(l.target, ast.Tuple)]
+        if not loops:
+            raise AnalysisError("_create_sbml_reactions: loop over the stoichiometry not found")
+        lp = loops[0]
+        f = norm(lp.target.elts[1])
+        o = SymInterp().block(lp.body, [Sym()])
+        paths = list(o.normal) + list(o.continues)
+        num_t = f"isinstance({f}, (float, int))"
+        der_t = f"isinstance({f}, Derived)"
+        num = [st for st in paths if (num_t, True) in st.conds]
+        der = [st for st in paths if (der_t, True) in st.conds]
+        other_ok = [st for st in paths if (num_t, False) in st.conds and (der_t, False) in st.conds]
+        other_raise = [st for st, _, _ in o.raises if (num_t, False) in st.conds and (der_t, False) in st.conds]
+        if not num or not der:
             raise AnalysisError("_create_sbml_reactions: numeric / computed cases not found")
-        t = " ".join(norm(ast.Module(body=num.body, type_ignores=[])).split())
-        if "sbml_rxn.createReactant() if factor < 0 else sbml_rxn.createProduct()" in t and "setStoichiometry(abs(factor))" in t:
-            self.holds("E4", MOD, fn.name, "numeric-sign", num.body[0], "reactant iff factor < 0, stoichiometry abs(factor)")
+        anchor = lp
+
+        def calls(st):
+            return [e[1] for e in st.events if e[0] == "call"]
+        ok = True
+        for st in num:
+            neg = [p_ for c, p_ in st.conds if c == f"{f} < 0"] + [not p_ for c, p_ in st.conds if c == f"{f} >= 0"]
+            cs = calls(st)
+            want = "sbml_rxn.createReactant()" if neg and neg[-1] else "sbml_rxn.createProduct()"
+            other = "sbml_rxn.createProduct()" if neg and neg[-1] else "sbml_rxn.createReactant()"
+            if not neg or f"{want}.setStoichiometry(abs({f}))" not in cs or any(c.startswith(other) for c in cs):
+                ok = False
+        if ok:
+            self.holds("E4", MOD, fn.name, "numeric-sign", anchor, "reactant iff factor < 0, stoichiometry abs(factor)")
         else:
-            self.violated("E4", MOD, fn.name, "numeric-sign", num.body[0], "numeric coefficients are not exported as reactant iff negative with their absolute value",
+            self.violated("E4", MOD, fn.name, "numeric-sign", anchor, "numeric coefficients are not exported as reactant iff negative with their absolute value",
                           witness="x -> y with coefficients -1/+1 comes back with both signs flipped (or a signed stoichiometry on the wrong side)")
-        td = " ".join(norm(ast.Module(body=der.body, type_ignores=[])).split())
-        if "sref = sbml_rxn.createProduct()" in td and "createReactant" not in td:
-            self.holds("E4", MOD, fn.name, "computed-sign", der.body[0], "computed coefficient exported as a product: its value enters unchanged")
+        okd = all(any(c.startswith("sbml_rxn.createProduct().") for c in calls(st)) and not any("createReactant" in c for c in calls(st)) for st in der)
+        if okd:
+            self.holds("E4", MOD, fn.name, "computed-sign", anchor, "computed coefficient exported as a product: its value enters unchanged")
         else:
-            self.violated("E4", MOD, fn.name, "computed-sign", der.body[0], "a computed coefficient is exported as a reactant with its raw value: on import its sign is flipped",
+            self.violated("E4", MOD, fn.name, "computed-sign", anchor, "a computed coefficient is exported as a reactant with its raw value: on import its sign is flipped",
                           witness="stoichiometry {'y': Derived(3*k)} with k=2: the original adds +6*v to dy/dt, the re-imported model -6*v")
-        if fn and "default" not in td and classify_body(match_dispatch(m[0]).default or []) == "raise":
-            self.holds("E4", MOD, fn.name, "other-coefficients-refused", m[0], "coefficient types other than number / Derived raise")
+        if other_raise and not other_ok:
+            self.holds("E4", MOD, fn.name, "other-coefficients-refused", anchor, "coefficient types other than number / Derived raise")
         else:
-            self.violated("E4", MOD, fn.name, "other-coefficients-refused", m[0], "unknown coefficient types are not refused")
+            self.violated("E4", MOD, fn.name, "other-coefficients-refused", anchor, "unknown coefficient types are not refused")
 
     def e5(self, mod) -> None:
         for table, arity in (("UNARY", 1), ("BINARY", 2), ("NARY", None)):
@@ -275,20 +303,17 @@ class C08(Check):
                 else:
                     raise AnalysisError(f"{fname} missing")
             fn = mod.func(fname)
-            m = [n for n in walk_no_nested(fn) if isinstance(n, ast.Match)]
-            if not m:
-                raise AnalysisError(f"{fname}: match not found")
-            for c in m[0].cases:
-                if not isinstance(c.pattern, ast.MatchClass):
-                    continue
-                k = norm(c.pattern.cls).split(".")[-1]
-                asg = [s for s in c.body if isinstance(s, ast.Assign)]
-                val = norm(asg[0].value).replace("libsbml.", "") if asg else "?"
+            ot = operator_table(mod, fn)
+            if ot is None:
+                raise AnalysisError(f"{fname}: operator dispatch not found")
+            entries, default, anchor = ot
+            for k, val in sorted(entries.items()):
+                val = val.replace("libsbml.", "")
                 cons = f"{fname}[{k}]"
                 if ref.get(k) == val:
-                    self.holds("E5", MOD, fname, cons, c.body[0], f"{k} -> {val}")
+                    self.holds("E5", MOD, fname, cons, anchor, f"{k} -> {val}")
                 else:
-                    self.violated("E5", MOD, fname, cons, c.body[0], f"Python {k} is exported as {val}; MathML counterpart is {ref.get(k)}",
+                    self.violated("E5", MOD, fname, cons, anchor, f"Python {k} is exported as {val}; MathML counterpart is {ref.get(k)}",
                                   witness=f"a rate law using the {k} operator computes something else after re-import")
 
     def e6(self, mod) -> None:
